@@ -1,9 +1,11 @@
 package rules
 
 import (
+	"fmt"
 	"go/ast"
 	"go/token"
 	"go/types"
+	"os"
 	"sort"
 	"strings"
 
@@ -346,6 +348,7 @@ func (r *r1) publicationPass(cands []*types.Var) map[*types.Var]*pubResult {
 			recvSoFar := append([]*types.Var(nil), x.recvd...)
 			election := false
 			rmw := map[*types.Var]bool{} // locals holding the result of an atomic Swap/CompareAndSwap
+			createdHere := map[types.Object]bool{}
 			fresh := map[types.Object]bool{}
 			for o := range x.fresh {
 				fresh[o] = true
@@ -362,9 +365,26 @@ func (r *r1) publicationPass(cands []*types.Var) map[*types.Var]*pubResult {
 							election = true
 						}
 					}
-				case core.KCall:
-					// `if x.Swap(true)` evaluates the call before the branch event: look ahead is not
-					// needed because the branch event follows immediately
+				case core.KCall, core.KGo:
+					// an object handed to a call (as receiver root or argument) is no longer private to
+					// this path — as in the first pass, where the callee's context decides more finely
+					if ev.Builtin == "" && ev.Call != nil && !isLockOrAtomicMethod(ev.Callee) {
+						info := ev.Frame.Info()
+						var roots []ast.Expr
+						roots = append(roots, ev.Call.Args...)
+						if sel, ok := unparen(ev.Call.Fun).(*ast.SelectorExpr); ok {
+							roots = append(roots, sel.X)
+						}
+						for _, e := range roots {
+							if id := rootIdent(e); id != nil {
+								if o := info.Uses[id]; o != nil && fresh[o] {
+									if _, plainRecv := unparen(e).(*ast.Ident); !(plainRecv && ev.Callee != nil && r.c.Prog.Decl(ev.Callee) != nil && ev.Kind == core.KCall && !sharesObject(r.c.Prog.Decl(ev.Callee), recvOrParamObj(r.c.Prog.Decl(ev.Callee), ev.Call, e))) {
+										fresh[o] = false
+									}
+								}
+							}
+						}
+					}
 				case core.KRecv:
 					if !ev.NonBlocking || ev.InSelect {
 						if v := varOf(ev.Chan, ev.Frame); v != nil {
@@ -375,6 +395,7 @@ func (r *r1) publicationPass(cands []*types.Var) map[*types.Var]*pubResult {
 					if !ev.FieldInit {
 						if v := identVar(ev.Lhs, ev.Frame); v != nil && !v.IsField() {
 							fresh[v] = ev.Rhs != nil && ev.RhsIdx < 0 && r.isFresh(ev.Rhs, ev.Frame.Info())
+							createdHere[v] = fresh[v]
 							rmw[v] = ev.Rhs != nil && ev.RhsIdx < 0 && isAtomicRMW(ev.Rhs, ev.Frame)
 						}
 					}
@@ -421,7 +442,15 @@ func (r *r1) publicationPass(cands []*types.Var) map[*types.Var]*pubResult {
 						s = &st{pp: &pubPath{ctx: x, recvs: append([]*types.Var(nil), recvSoFar...), firstPos: ev.Pos}, lastWrite: -1}
 						per[v] = s
 						// re-entrant writer context: a field, or a local written inside an escaping literal
+						// (a field of an object this very function created is written once per object)
 						s.pp.reentrant = v.IsField()
+						if v.IsField() && ev.Base != nil {
+							if id := rootIdent(ev.Base); id != nil {
+								if o := ev.Frame.Info().Uses[id]; o != nil && createdHere[o] {
+									s.pp.reentrant = false
+								}
+							}
+						}
 						for f := ev.Frame; f != nil; f = f.Parent {
 							if f.Lit != nil && r.escOf[f.Lit] != core.EscNone && !(v.Pos() >= f.Lit.Pos() && v.Pos() < f.Lit.End()) {
 								s.pp.reentrant = true
@@ -458,6 +487,11 @@ func (r *r1) publicationPass(cands []*types.Var) map[*types.Var]*pubResult {
 		if len(pps) == 0 {
 			res.why = "no access path found in the second pass"
 			continue
+		}
+		if os.Getenv("DEBUG_R1D") != "" && strings.Contains(v.Name(), os.Getenv("DEBUG_R1D")) {
+			for _, pp := range pps {
+				fmt.Fprintf(os.Stderr, "R1D %s: ctx=%s writes=%v closes=%v recvs=%v reentrant=%v election=%v first=%s\n", v.Name(), pp.ctx.key, pp.writes, pp.closes, pp.recvs, pp.reentrant, pp.election, r.c.Prog.Pos(pp.firstPos))
+			}
 		}
 		// candidate channels: closed on every writer path
 		var chans map[*types.Var]bool
@@ -538,4 +572,32 @@ func enclosingNameAt(c *Ctx, pos token.Pos) string {
 		return core.FuncName(d.Obj)
 	}
 	return "?"
+}
+
+// recvOrParamObj: the callee's receiver or parameter object that the expression e (receiver or
+// argument of call) is bound to.
+func recvOrParamObj(d *core.FuncDecl, call *ast.CallExpr, e ast.Expr) types.Object {
+	if d == nil {
+		return nil
+	}
+	info := d.Pkg.TypesInfo
+	if sel, ok := unparen(call.Fun).(*ast.SelectorExpr); ok && sel.X == e {
+		if rc := d.Decl.Recv; rc != nil && len(rc.List) == 1 && len(rc.List[0].Names) == 1 {
+			return info.Defs[rc.List[0].Names[0]]
+		}
+		return nil
+	}
+	i := 0
+	for _, f := range d.Decl.Type.Params.List {
+		for _, n := range f.Names {
+			if i < len(call.Args) && call.Args[i] == e {
+				return info.Defs[n]
+			}
+			i++
+		}
+		if len(f.Names) == 0 {
+			i++
+		}
+	}
+	return nil
 }
